@@ -5,7 +5,7 @@
 //! writes `DIR/ops.txt`, `DIR/impl.out` (line i answers ops line i) and `DIR/stats.json`.
 pub mod guard;
 
-use serde_json::{json, Value};
+pub use serde_json::{json, Value};
 use std::{
     collections::{BTreeMap, BTreeSet},
     fmt::Write as _,
@@ -196,7 +196,8 @@ impl Recorder {
     /// Property oracle failed on the current case.
     pub fn fail(&mut self, class: &str, detail: &str) {
         let replay = self.current_case_text();
-        if self.failures.len() < 200 {
+        // keep a few failures of every class so one noisy class cannot hide another
+        if self.failures.iter().filter(|f| f.class == class).count() < 5 && self.failures.len() < 400 {
             self.failures.push(OracleFailure { class: class.into(), detail: detail.into(), replay });
         }
         self.bump(&format!("oracle_fail:{class}"));
